@@ -8,7 +8,7 @@ set_option linter.unusedVariables false
 `uniform dz P (x y z)×P (len Ls…)×(P−1)`               → UniformRayTracePath.attenuation, one frequency
                                                           (`count-mismatch` if a segment's sample count differs)
 `prod K x…`                                             → LayeredRayTracePath.attenuation (product of sub-paths)
-`alen z K f…`                                           → AntarcticIce.attenuation_length(z, f)
+`alen a|g|r z K f…`                                     → Antarctic|Greenland|Arasim attenuation_length(z, f)
 `bfresnel n0 k a lo hi above below direct theta0 z0`    → BasicRayTracePath.fresnel: r_s.re r_s.im r_p.re r_p.im
 `ufresnel n0 K (n2 dr dz)×K`                            → UniformRayTracePath.fresnel
 `lfresnel f(4) K (refl n1 n2 recvZ f(4))×K`             → LayeredRayTracePath.fresnel
@@ -121,10 +121,15 @@ def run (op : String) : P String :=
     pEnd
     pure (tokOfFloat (layeredAttenuation xs))
   | "alen" => do
+    let kind ← pTok
     let z ← pFloat; let k ← pNat
     let fs ← pFloats k
     pEnd
-    pure (joinFloats (fs.map (antarcticAttenLength z)))
+    match kind with
+    | "a" => pure (joinFloats (fs.map (attenAntarctic z)))
+    | "g" => pure (joinFloats (fs.map (attenGreenland z)))
+    | "r" => pure (joinFloats (fs.map (attenArasim z)))
+    | _ => failure
   | "bfresnel" => do
     let n0 ← pFloat; let k ← pFloat; let a ← pFloat; let lo ← pFloat; let hi ← pFloat
     let ab ← pOpt; let be ← pOpt
